@@ -26,6 +26,13 @@ class Abstain(Exception):
     """outcome not fixed by the language documentation"""
 
 
+class PyDefault:
+    """default value of a builtin's optional parameter"""
+
+    def __init__(self, v):
+        self.v = v
+
+
 class Thunk:
     __slots__ = ("expr", "env", "state", "val", "it")
 
@@ -301,6 +308,161 @@ class Interp:
                     out.append(t)
             return VArr(out)
 
+
+        # ---- object / type functions (C13): the documented definitions, with their laziness
+        def bd(name, params, fn):
+            return Thunk.ready(VFn(list(params), None, None, builtin=(name, fn)))
+
+        def need(v, t, what):
+            if typeof(v) != t:
+                raise JErr("%s expects %s, got %s" % (what, t, typeof(v)))
+            return v
+
+        def mk_obj(fields):
+            """fields: {name: (vis, thunk)}"""
+            L = Layer({}, True)
+            for k, (vis, t) in fields.items():
+                L.fields[k] = (False, vis, None, None, t)
+            return VObj([L])
+
+        def names_of(o, hidden):
+            return o.all_names() if hidden else o.visible_names()
+
+        def has_ex(o, f, hidden):
+            if o.lookup(f) is None:
+                return False
+            return True if hidden else o.visible(f)
+
+        def obj_fields_ex(o, hidden):
+            o, hidden = need(o.force(), "object", "objectFieldsEx"), need(hidden.force(), "boolean", "objectFieldsEx")
+            return VArr([Thunk.ready(n) for n in names_of(o, hidden)])
+
+        def obj_has_ex(o, f, hidden):
+            o, f, hidden = need(o.force(), "object", "objectHasEx"), need(f.force(), "string", "objectHasEx"), \
+                need(hidden.force(), "boolean", "objectHasEx")
+            return has_ex(o, f, hidden)
+
+        def obj_values(hidden):
+            def f(o):
+                o = need(o.force(), "object", "objectValues")
+                return VArr([LazyFn(lambda n=n: it.index_obj(o, n)) for n in names_of(o, hidden)])
+            return f
+
+        def obj_kv(hidden):
+            def f(o):
+                o = need(o.force(), "object", "objectKeysValues")
+                return VArr([Thunk.ready(mk_obj({"key": (":", Thunk.ready(n)),
+                                                 "value": (":", LazyFn(lambda n=n: it.index_obj(o, n)))}))
+                             for n in names_of(o, hidden)])
+            return f
+
+        def get(o, f, default, inc_hidden):
+            o, f, h = need(o.force(), "object", "get"), need(f.force(), "string", "get"), \
+                need(inc_hidden.force(), "boolean", "get")
+            if has_ex(o, f, h):
+                return it.index_obj(o, f)
+            return default.force()
+
+        def map_with_key(func, obj):
+            func, obj = need(func.force(), "function", "mapWithKey"), need(obj.force(), "object", "mapWithKey")
+            return mk_obj({n: (":", LazyFn(lambda n=n: it.call(func, [Thunk.ready(n), LazyFn(lambda n=n: it.index_obj(obj, n))], [])))
+                           for n in obj.visible_names()})
+
+        def merge_patch(target, patch):
+            patch = patch.force()
+            if not isinstance(patch, VObj):
+                return patch
+            tv = target.force()
+            tobj = tv if isinstance(tv, VObj) else mk_obj({})
+            tfields = tobj.visible_names()
+            pfields = patch.visible_names()
+            null_fields = [k for k in pfields if it.equals(it.index_obj(patch, k), None)]
+            both = sorted(set(tfields) | set(pfields))
+            out = {}
+            for k in both:
+                if k in null_fields:
+                    continue
+                if k not in pfields:
+                    out[k] = (":", LazyFn(lambda k=k: it.index_obj(tobj, k)))
+                elif k not in tfields:
+                    out[k] = (":", LazyFn(lambda k=k: merge_patch(Thunk.ready(None), Thunk.ready(it.index_obj(patch, k)))))
+                else:
+                    out[k] = (":", LazyFn(lambda k=k: merge_patch(Thunk.ready(it.index_obj(tobj, k)),
+                                                                  Thunk.ready(it.index_obj(patch, k)))))
+            return mk_obj(out)
+
+        def is_content(b):
+            if b is None:
+                return False
+            if isinstance(b, VArr):
+                return len(b.items) > 0
+            if isinstance(b, VObj):
+                return len(b.visible_names()) > 0
+            return True
+
+        def prune(a):
+            a = a.force()
+            if isinstance(a, VArr):
+                return VArr([LazyFn(lambda x=x: prune(x)) for x in a.items if is_content(prune(x))])
+            if isinstance(a, VObj):
+                out = {}
+                for n in a.visible_names():
+                    if is_content(prune(LazyFn(lambda n=n: it.index_obj(a, n)))):
+                        out[n] = (":", LazyFn(lambda n=n: prune(LazyFn(lambda: it.index_obj(a, n)))))
+                return mk_obj(out)
+            return a
+
+        def is_(t):
+            return lambda v: typeof(v.force()) == t
+
+        def equals(a, b):
+            return it.equals(a.force(), b.force())
+
+        def primitive_equals(a, b):
+            a, b = a.force(), b.force()
+            ta, tb = typeof(a), typeof(b)
+            if ta != tb:
+                return False
+            if ta in ("array", "object"):
+                raise JErr("primitiveEquals operates on primitive types, got " + ta)
+            if ta == "function":
+                raise JErr("cannot test equality of functions")
+            return a == b
+
+        def assert_equal(a, b):
+            if it.equals(a.force(), b.force()):
+                return True
+            raise JErr("Assertion failed")
+
+        def xor(x, y):
+            x, y = need(x.force(), "boolean", "xor"), need(y.force(), "boolean", "xor")
+            return x != y
+
+        def xnor(x, y):
+            x, y = need(x.force(), "boolean", "xnor"), need(y.force(), "boolean", "xnor")
+            return x == y
+
+        c13 = {
+            "objectFieldsEx": bd("objectFieldsEx", [("obj", None), ("hidden", None)], obj_fields_ex),
+            "objectHasEx": bd("objectHasEx", [("obj", None), ("fname", None), ("hidden", None)], obj_has_ex),
+            "objectValues": bd("objectValues", [("o", None)], obj_values(False)),
+            "objectValuesAll": bd("objectValuesAll", [("o", None)], obj_values(True)),
+            "objectKeysValues": bd("objectKeysValues", [("o", None)], obj_kv(False)),
+            "objectKeysValuesAll": bd("objectKeysValuesAll", [("o", None)], obj_kv(True)),
+            "get": bd("get", [("o", None), ("f", None), ("default", PyDefault(None)), ("inc_hidden", PyDefault(True))], get),
+            "mapWithKey": bd("mapWithKey", [("func", None), ("obj", None)], map_with_key),
+            "mergePatch": bd("mergePatch", [("target", None), ("patch", None)], merge_patch),
+            "prune": bd("prune", [("a", None)], prune),
+            "equals": bd("equals", [("a", None), ("b", None)], equals),
+            "primitiveEquals": bd("primitiveEquals", [("x", None), ("y", None)], primitive_equals),
+            "assertEqual": bd("assertEqual", [("a", None), ("b", None)], assert_equal),
+            "xor": bd("xor", [("x", None), ("y", None)], xor),
+            "xnor": bd("xnor", [("x", None), ("y", None)], xnor),
+        }
+        for nm, t in (("isString", "string"), ("isNumber", "number"), ("isBoolean", "boolean"), ("isObject", "object"),
+                      ("isArray", "array"), ("isFunction", "function"), ("isNull", "null")):
+            c13[nm] = bd(nm, [("v", None)], is_(t))
+
         fields = {
             "length": b("length", ["x"], length), "trace": b("trace", ["str", "rest"], trace),
             "extVar": b("extVar", ["x"], ext_var), "type": b("type", ["x"], type_),
@@ -313,6 +475,7 @@ class Interp:
             "map": b("map", ["func", "arr"], map_), "mapWithIndex": b("mapWithIndex", ["func", "arr"], map_with_index),
             "filter": b("filter", ["func", "arr"], filter_),
         }
+        fields.update(c13)
         L = Layer({}, True)
         o = VObj([L])
         for k, t in fields.items():
@@ -583,8 +746,11 @@ class Interp:
                 raise JErr("parameter bound twice " + n)
             bound[n] = a
         if f.builtin is not None:
-            for pn, _ in params:
+            for pn, d in params:
                 if pn not in bound:
+                    if isinstance(d, PyDefault):
+                        bound[pn] = Thunk.ready(d.v)
+                        continue
                     raise JErr("missing argument " + pn)
             if tailstrict:
                 for t in bound.values():
